@@ -25,9 +25,9 @@ MUTS = [
   "blocking an already blocked contact is accepted (appends a second event)", "block in state Blocked"),
  ("C13-self1", "C13", "store_utils.go", "	return entries[startIndex : stopIndex+1], nil", "	return entries[startIndex:stopIndex], nil",
   "range selection excludes the until entry", "any listing with an upper bound"),
- ("C05-self1", "C05", "pkg/secretstore/chain_key.go", "	gid := group.GetPublicKey()\n\n	copy(nonce[:], gid)", "	gid := group.GetPublicKey()\n\n	copy(nonce[:4], gid)",
-  "announcement nonce bound to 4 bytes of the group id only (still group-dependent for most groups)", "nothing observable with distinct group ids: expected to be MISSED unless two groups share a 4-byte prefix (kept as a negative control)"),
- ("C20-self1", "C20", "account_export.go", "	if !node.Cid().Equals(expectedCID) {\n		return nil, errcode.ErrCode_ErrInvalidInput.Wrap(fmt.Errorf(\"entry CID doesn't match file CID\"))\n	}\n", "",
+ ("C05-self1", "C05", "pkg/secretstore/chain_key.go", "	gid := group.GetPublicKey()\n\n	copy(nonce[:], gid)\n", "	_ = group\n",
+  "announcement nonce no longer bound to the group (constant nonce)", "a sender device and recipient member that are the same key pair in two groups (account and contact groups of one account)"),
+ ("C20-self1", "C20", "account_export.go", "	if !node.Cid().Equals(expectedCID) {\n", "	if false && !node.Cid().Equals(expectedCID) {\n",
   "restore no longer compares the entry bytes with the identifier in the file name", "an archive whose entry was renamed or whose contents were swapped"),
  ("C19-self1", "C19", "api_app.go", None, None, "", ""),
 ]
